@@ -15,7 +15,15 @@ def bzVerdict : Verdict → String
 
 def handleBz (kv : List (String × String)) : String :=
   match bytesOfHex (lookupD kv "in" "-") with
-  | some bs => let r := Bzip2.decode bs; s!"{outSummary r.out}:{bzVerdict r.verdict}"
+  | some bs =>
+    let r := Bzip2.decode bs
+    -- which check fires first on an INVALID stream is not part of the format (the table-driven Go
+    -- reader rejects an unassigned code word as soon as it is determined, this specification after
+    -- the longest code length): the class of a rejected input is compared only on request (`cls=1`:
+    -- cuts of accepted streams, where `Bzip2Cut.decode_cut` says "unexpected EOF")
+    let v := bzVerdict r.verdict
+    let cls := if v == "eof" || v == "deprecated" || (lookup kv "cls").isSome then v else "rej"
+    s!"{outSummary r.out}:{cls}"
   | none => "bad-line"
 
 def handleRle1e (kv : List (String × String)) : String :=
